@@ -12,6 +12,11 @@ symbreak: in either order] - i.e. the image is a k-clique.  `non_edges(G)` is pr
 non-adjacent pairs (every iteration yields iff its pair is not an edge; iteration counts at loop exit); its value at the call
 site is that filtered pair enumeration (`value_form`: the correspondence between the two statements is by reading).
 
+GraphIsomorphism (default nontrivial=False) - PROVED for all graphs G1, G2: a satisfies the formula iff f is a complete, surjective,
+functional, injective mapping V(G1) -> V(G2) (a bijection) such that for all u1 < u2 and v1 < v2 whose adjacency differs
+(G1-edge != G2-edge) f puts (u1, u2) neither on (v1, v2) nor on (v2, v1) - an isomorphism.  The `nontrivial` clause (a list
+comprehension with a filter) is outside the modelled subset: bounded tier.
+
 RamseyWitnessFormula:
 
 PROVED for every graph G, every k and both values of `symbreak`, for an arbitrary assignment a: a satisfies the formula iff
@@ -226,6 +231,51 @@ CONTRACTS.update({
             'implies(symbreak, m_nondecreasing(a, {m}.gid)) and '
             'forall(lambda i1, i2, j1, j2: implies(1 <= i1 and i1 < i2 and i2 <= k and 1 <= j1 and j1 < j2 and j2 <= G.n, {row})))'.format(m=M, row=CROW),
             'result._numvar == k * G.n',
+            'result.cls == formula_class',
+        ],
+    },
+})
+
+
+# ---- GraphIsomorphism ---------------------------------------------------------------------------------------------------------------
+I_ = 'cnfgen/families/graphisomorphism.py'
+CLASSMODELS['FormulaI'] = {'file': F_, 'real': 'CNF', 'fields': {'store': 'mclist', '_numvar': 'int', 'cls': 'int', 'header': 'opaque', '_mapping': 'any'}}
+IROW = ('(implies(gadj(G1.gid, u1, u2) != gadj(G2.gid, v1, v2), not ({a} and {b}) and not ({x} and {y})))').format(
+    a=sv('u1', 'v1'), b=sv('u2', 'v2'), x=sv('u1', 'v2'), y=sv('u2', 'v1'))
+
+
+def irow(u1, u2, v1, v2):
+    return IROW.replace('u1', '(' + u1 + ')').replace('u2', '(' + u2 + ')').replace('v1', '(' + v1 + ')').replace('v2', '(' + v2 + ')')
+
+
+KEEP3 = ['F._numvar == G1.n * G2.n']
+I1 = 'forall(lambda u1, u2, v1, v2: implies(1 <= u1 and u1 <= _a and u1 < u2 and u2 <= G1.n and 1 <= v1 and v1 < v2 and v2 <= G2.n, {}))'.format(irow('u1', 'u2', 'v1', 'v2'))
+I2 = 'forall(lambda u2, v1, v2: implies(_a + 1 < u2 and u2 <= _a + 1 + _b and 1 <= v1 and v1 < v2 and v2 <= G2.n, {}))'.format(irow('_a + 1', 'u2', 'v1', 'v2'))
+I3 = 'forall(lambda v1, v2: implies(1 <= v1 and v1 <= _c and v1 < v2 and v2 <= G2.n, {}))'.format(irow('_a + 1', '_a + 2 + _b', 'v1', 'v2'))
+I4 = 'forall(lambda v2: implies(_c + 1 < v2 and v2 <= _c + 1 + _it, {}))'.format(irow('_a + 1', '_a + 2 + _b', '_c + 1', 'v2'))
+_FI = {k: v for k, v in CONTRACTS.items() if k[1].startswith('FormulaS.')}
+for (_f, _q), _c in _FI.items():
+    CONTRACTS[(_f, _q.replace('FormulaS.', 'FormulaI.'))] = _c
+CONTRACTS[(F_, 'FormulaI.__init__')] = {'assumed': 'formula_class(description=...) builds an empty formula of that class', 'params': {'description': 'any'},
+                                        'modifies': ['self.store', 'self._numvar'], 'ensures': ['self.store == cnil', 'self._numvar == 0']}
+CONTRACTS[(F_, 'FormulaI.force_surjective_mapping')] = force('surjective')
+CONTRACTS.update({
+    (V_, 'MapS.domain'): {'assumed': 'domain() = 1..n', 'params': {'v': 'none'}, 'returns_expr': 'range(1, self.n + 1)'},
+    (V_, 'MapS.range'): {'assumed': 'range() = 1..m', 'params': {'u': 'none'}, 'returns_expr': 'range(1, self.m + 1)'},
+    (I_, 'GraphIsomorphism'): {
+        'property': ['C02', 'C08', 'C10'],
+        'params': {'G1': 'obj:GraphS', 'G2': 'obj:GraphS', 'nontrivial': 'const:False', 'formula_class': 'class:FormulaI'},
+        'supports': ['not nontrivial'],
+        'ghost_params': {'a': 'asg'},
+        'raises': {},
+        'loops': {0: {'nest': [dict(FR, counter='_a', ghost_at_entry={'S0': 'F.store'}, inv=KEEP3 + [acc(I1)]),
+                               dict(FR, counter='_b', inv=KEEP3 + [acc('({} and {})'.format(I1, I2))])]},
+                  1: {'nest': [dict(FR, counter='_c', inv=KEEP3 + [acc('({} and {} and {})'.format(I1, I2, I3))]),
+                               dict(FR, inv=KEEP3 + [acc('({} and {} and {} and {})'.format(I1, I2, I3, I4))])]}},
+        'ensures': [
+            'sat(a, result.store) == (m_complete(a, {m}.gid) and m_surjective(a, {m}.gid) and m_functional(a, {m}.gid) and m_injective(a, {m}.gid) and '
+            'forall(lambda u1, u2, v1, v2: implies(1 <= u1 and u1 < u2 and u2 <= G1.n and 1 <= v1 and v1 < v2 and v2 <= G2.n, {row})))'.format(m=M, row=IROW),
+            'result._numvar == G1.n * G2.n',
             'result.cls == formula_class',
         ],
     },
